@@ -363,7 +363,7 @@ def validate_traces(wd, module, cfg_text, traces, timeout=900, heap="8g"):
         pos = {}
         for c, l in first:
             pos[c] = min(l, pos.get(c, l))
-        out[tid - 1] = {"len": n, "bad": set(pos), "at": pos, "firstBad": min(pos.values()) if pos else 0}
+        out[tid - 1] = {"len": n, "bad": set(pos), "at": pos, "firstBad": min(pos.values()) if pos else 0, "all": sorted((l, c) for c, l in first)}
     missing = [i for i, x in enumerate(out) if x is None]
     if missing:
         raise MachineryError("%s: no verdict for traces %s\n%s" % (module, missing[:5], r.out[-2000:]))
